@@ -9,6 +9,15 @@
 (*                 [--max-scales N] src/info_fullres.json d                 *)
 (*   Vol        volume-to-precomputed VOL d                                 *)
 (*   Slices     slices-to-precomputed --input-orientation CODE DIRS... d    *)
+(*   Rechunk    the user re-tiles the stored scales of d with additional    *)
+(*              chunk sizes and lists them in the info (the format allows   *)
+(*              several chunk_sizes per scale; no tool generates them).     *)
+(*              Contents are whole-scale values, so the abstract state does *)
+(*              not change.  Harness action, not in the MC alphabet.        *)
+(*   Obstruct   ENVIRONMENT: a regular file occupies the path of the LAST     *)
+(*              scale's directory of d, so that its chunks / shards cannot  *)
+(*              be created.  A command that cannot write must not exit 0.   *)
+(*              Harness action, not in the MC alphabet.                     *)
 (*   HandInfo   the user writes d/info_fullres.json by hand (script-usage   *)
 (*              step 1: there is no --generate-info for slice stacks); no   *)
 (*              transform.json.  Performed by the harness, not a tool.      *)
@@ -121,7 +130,8 @@ EmptyDir == [fullres |-> "absent",      \* "absent" | "nosh" | "s110" (sharding 
              transform |-> FALSE,
              info |-> NoInfo,
              chunks |-> [i \in Scales |-> "absent"],
-             mis |-> {}]                \* scales stored in a layout the info does not declare
+             mis |-> {},                \* scales stored in a layout the info does not declare
+             blocked |-> FALSE]         \* the last scale's directory cannot be created
 
 Resolve(m, type) == IF m = "auto" THEN (IF type = "image" THEN "average" ELSE "stride") ELSE m
 Down(m, c) == "D" \o m \o "(" \o c \o ")"
@@ -147,13 +157,13 @@ RunGenScales(c, D, cf) ==
                                     n |-> NScales(c.max, cf), sh |-> D[c.src].fullres]], 0)
 
 RunVol(c, D) ==
-  IF D[c.d].info.n = 0 THEN Res(D, 1)
+  IF D[c.d].info.n = 0 \/ (D[c.d].blocked /\ D[c.d].info.n = 1) THEN Res(D, 1)
   ELSE Res([D EXCEPT ![c.d].chunks[1] = "map", ![c.d].mis = @ \ {1}], 0)
 
 \* same refusal / exit rules as Vol; the content is the re-oriented stack
 SliceContent(code) == "S" \o code
 RunSlices(c, D) ==
-  IF D[c.d].info.n = 0 THEN Res(D, 1)
+  IF D[c.d].info.n = 0 \/ (D[c.d].blocked /\ D[c.d].info.n = 1) THEN Res(D, 1)
   ELSE Res([D EXCEPT ![c.d].chunks[1] = SliceContent(c.code), ![c.d].mis = @ \ {1}], 0)
 
 RunHandInfo(c, D) ==
@@ -165,6 +175,9 @@ RunCompute(c, D) ==
   IF ds.info.n = 0 THEN Res(D, 1)
   ELSE IF ds.info.n = 1 THEN Res(D, 0)
   ELSE IF ~Readable(ds, 1) THEN Res(D, 1)
+  ELSE IF ds.blocked            \* every scale but the last is computed, then the write fails
+    THEN Res([D EXCEPT ![c.d].chunks = Pyramid(ds.chunks, ds.info.n - 1, Resolve(c.m, ds.info.type)),
+                       ![c.d].mis = @ \ (2..(ds.info.n - 1))], 1)
   ELSE Res([D EXCEPT ![c.d].chunks = Pyramid(ds.chunks, ds.info.n, Resolve(c.m, ds.info.type)),
                      ![c.d].mis = @ \ (2..ds.info.n)], 0)
 
@@ -177,7 +190,7 @@ RunConvert(c, D) ==
   ELSE IF c.copy = "keep" /\ t.info.n = 0 THEN Res(D, 1)
   ELSE
     LET di == IF c.copy = "copy" THEN s.info ELSE t.info
-        ok(i) == i <= s.info.n /\ Readable(s, i)
+        ok(i) == i <= s.info.n /\ Readable(s, i) /\ ~(t.blocked /\ i = di.n)
         bad == {i \in 1..di.n : ~ok(i)}
         \* scales are walked coarsest first; the walk stops at the first bad one
         stop == IF bad = {} THEN 0 ELSE CHOOSE i \in bad : \A j \in bad : j <= i
@@ -218,6 +231,9 @@ Run(c, D, cf) ==
     [] c.op = "Edit"      -> RunEdit(c, D)
     [] c.op = "Slices"    -> RunSlices(c, D)
     [] c.op = "HandInfo"  -> RunHandInfo(c, D)
+    [] c.op = "Obstruct"  -> IF D[c.d].info.n = 0 \/ D[c.d].chunks[D[c.d].info.n] # "absent" THEN Res(D, 1)
+                             ELSE Res([D EXCEPT ![c.d].blocked = TRUE], 0)
+    [] c.op = "Rechunk"   -> IF D[c.d].info.n = 0 \/ D[c.d].info.sh # "nosh" THEN Res(D, 1) ELSE Res(D, 0)
 
 Succ(e) == e = 0
 GenInfoOk(e) == e = 0 \/ e = 4
@@ -295,6 +311,8 @@ Complete(c, D) ==
     [] c.op = "Edit"      -> ds.info.n # 0
     [] c.op = "Slices"    -> ds.info.n # 0 /\ Readable(ds, 1)
     [] c.op = "HandInfo"  -> ds.fullres # "absent"
+    [] c.op = "Obstruct"  -> TRUE
+    [] c.op = "Rechunk"   -> ds.info.n # 0
 
 SuccessMeansComplete ==
   \A c \in Alphabet :
